@@ -1,5 +1,5 @@
 from .. import facts
-from ..rules import tables, opacity, algebra, factors, floatmask, codec
+from ..rules import tables, opacity, algebra, factors, floatmask, codec, sampling
 
 
 def run(ck):
@@ -18,3 +18,4 @@ def run(ck):
     opacity.r2_opacity_flags(ck, P)          # C09-R2: a wrongly opaque source has its operator rewritten and the equations no longer hold
     tables.r15_pixbuf_substitution(ck, P)
     codec.r12_simd_helpers(ck, P, 'C01-R8')
+    sampling.r15_mask_stride_follows_pipeline(ck, P, 'C01-R9')
